@@ -8,7 +8,7 @@
 //! trailer with generated fields and comment counts, (f) random bytes, and mutation *inside* the base64 zTXt records of
 //! IcyDraw files (decoded with a standard PNG reader, mutated, re-encoded, re-wrapped in a minimal PNG).
 //! The loaders run in worker processes: Ok/Err is accepted, a panic is a violation keyed by its panic signature, an
-//! abort / stack overflow kills the worker and is keyed by "ext=<extension or api>". Hangs are not this property's subject.
+//! abort / stack overflow kills the worker and is keyed by "ext=<extension or api>". Hangs and heap-cap hits are C03's subject (inconclusive here).
 //!
 //! Parts: `systematic` (enumerated: every truncation and every field extreme of every golden file), then one generated
 //! part per API family: `buffer`, `sauce`, `bitfont`, `tdf`, `palette`.
@@ -796,7 +796,7 @@ fn main() {
     );
     eng.assume("release profile semantics (overflow-checks off, debug-assertions off), as a user of the shipped crate sees it");
     eng.assume("file names always carry an extension (Buffer::from_bytes unwraps it); PaletteFormat::Ase is not a loader (todo!() for every input) and is not called");
-    eng.assume("hangs and memory growth are C03's subject: timeouts are counted as inconclusive; numbers in generated terminal streams are capped at 999 so that cursor movement cannot allocate gigabytes of rows; sixel decode threads are given the time parse_with_parser gives them");
+    eng.assume("hangs and memory growth are C03's subject: timeouts and heap-cap hits (2 GiB, e.g. an IcyDraw layer record with width 0x7FFFFFFF) are counted as inconclusive, not as violations (heapcap_is_violation(false) on every part); numbers in generated terminal streams are capped at 999 so that cursor movement cannot allocate gigabytes of rows; sixel decode threads are given the time parse_with_parser gives them");
     let thorough = eng.is_thorough();
     let worker = std::env::var("ICYV_WORKER").is_ok();
 
@@ -809,7 +809,7 @@ fn main() {
     // ICYV_C02_HANGS=<ms> (debugging aid): report hangs as failures with a short timeout to get their replay files
     let hang_ms: Option<u64> = std::env::var("ICYV_C02_HANGS").ok().and_then(|s| s.parse().ok());
     let cfg = move |name: &'static str, q: u64, t: u64| {
-        let c = PartCfg::new(name, q, t).isolated().timeout_ms(20_000).shrink_budget(600);
+        let c = PartCfg::new(name, q, t).isolated().timeout_ms(20_000).heapcap_is_violation(false).shrink_budget(600);
         match hang_ms {
             Some(ms) => c.timeout_ms(ms).hang_is_violation(true),
             None => c,
